@@ -25,11 +25,13 @@ CONSTANTS
   MaxSteps,     \* engine option MaxStepsPerSprint
   MaxResumes,   \* engine option MaxResumesPerSession
   MaxCalls,     \* bound on engine calls per behaviour (start + resumes, accepted or not)
-  TrigKinds,    \* subset of {"manual", "msg", "flow_action"}
+  TrigKinds,    \* subset of {"manual", "msg", "flow_action", "campaign", "channel", "channel_gone", "optin", "optin_gone",
+                \* "ticket", "ticket_gone"}: only "msg" (input on the first node) and "flow_action" (parent summary) differ
+                \* from "manual" in what the engine core does; *_gone = the asset the trigger names is missing
   ResumeKinds,  \* subset of {"msg", "timeout", "expiration", "dial"}
   NodeKinds,    \* subset of {"act", "failact", "split", "wait", "dialwait", "enter"}
   DfltChoices,  \* subset of BOOLEAN: may switch routers lack a default category
-  FaultKinds,   \* subset of {"flow_gone", "parent_gone", "node_gone", "wait_gone", "wait_dial"} (asset faults between sprints)
+  FaultKinds,   \* subset of {"flow_gone", "parent_gone", "node_gone", "pnode_gone", "wait_gone", "wait_dial"} (asset faults between sprints)
   MaxFaults,
   Quirks        \* named deviations of the code from the design, e.g. {"stale_step"}
 
@@ -190,7 +192,9 @@ LoopDone ==
         THEN /\ cur' = p
              /\ IF rs1[cur].status # "failed"
                 THEN \* findResumeExit(parent): its flow may have gone missing, otherwise route
-                     IF rs1[p].flow \in gone
+                     \* ("can't resume run with missing flow asset"), or the node it stands on may be gone (PathLocation errs:
+                     \* "can't resume run as node no longer exists") - either way the run fails without a step
+                     IF rs1[p].flow \in gone \/ DefOfLast(rs1, p).kind = "gone"
                      THEN /\ runs' = ExitRun(rs1, p, "failed") /\ exit' = NoExit
                           /\ events' = Append(events, Ev("failure", p, NoStep))
                      ELSE \E o \in Pick(rs1, p, DefOfLast(rs1, p), "route") :
@@ -343,14 +347,19 @@ AssetFault(fk) ==
        [] fk = "parent_gone" -> /\ runs[w].parent # 0 /\ runs[runs[w].parent].flow # f /\ runs[runs[w].parent].flow \notin gone
                                 /\ gone' = gone \cup {runs[runs[w].parent].flow} /\ UNCHANGED def
        [] fk = "node_gone" -> def' = [def EXCEPT ![f][n] = Gone] /\ UNCHANGED gone
+       \* the enter_flow node on which the run paused above the waiting one stands is edited away
+       [] fk = "pnode_gone" -> /\ runs[w].parent # 0 /\ runs[runs[w].parent].flow # f /\ runs[runs[w].parent].flow \notin gone
+                               /\ DefOfLast(runs, runs[w].parent).kind # "gone"
+                               /\ def' = [def EXCEPT ![runs[runs[w].parent].flow][NodeOfLast(runs, runs[w].parent)] = Gone] /\ UNCHANGED gone
        [] fk = "wait_gone" -> def[f][n].kind = "wait" /\ def' = [def EXCEPT ![f][n].kind = "split"] /\ UNCHANGED gone
        [] fk = "wait_dial" -> def[f][n].kind = "wait" /\ def' = [def EXCEPT ![f][n].kind = "dialwait"] /\ UNCHANGED gone
   /\ nfaults' = nfaults + 1
   /\ UNCHANGED <<trig, trigch, status, runs, pc, cur, exit, pushed, nsteps, stepreg, nwaits, events, err, ncalls>>
   /\ LET w == WaitingRun IN
        hist' = Append(hist, [op |-> "fault", kind |-> fk, choice |-> -1,
-                             f |-> IF fk = "parent_gone" THEN runs[runs[w].parent].flow ELSE runs[w].flow, n |-> NodeOfLast(runs, w),
-                             was |-> def[runs[w].flow][NodeOfLast(runs, w)]])
+                             f |-> IF fk \in {"parent_gone", "pnode_gone"} THEN runs[runs[w].parent].flow ELSE runs[w].flow,
+                             n |-> IF fk = "pnode_gone" THEN NodeOfLast(runs, runs[w].parent) ELSE NodeOfLast(runs, w),
+                             was |-> IF fk = "pnode_gone" THEN DefOfLast(runs, runs[w].parent) ELSE def[runs[w].flow][NodeOfLast(runs, w)]])
   /\ UNCHANGED <<plan, exps>>
 
 Loop == LoopPush \/ LoopDone \/ LoopVisit
